@@ -315,6 +315,8 @@ func c02Browse(site string) (scope string, types []string) {
 		return "/", c02ArchiveTypes
 	case "scoped":
 		return "/dir", []string{"zip", "tar.gz"}
+	case "prefix-browse":
+		return "/", nil
 	}
 	return "", nil
 }
@@ -344,6 +346,12 @@ func c02Site(kind string) (*liveSite, error) {
 	}
 	casket.Quiet = true
 	text := "127.0.0.1:0 {\n" + body + "}\n"
+	if kind == "prefix" || kind == "prefix-browse" { // a site with a path prefix
+		if kind == "prefix-browse" {
+			body += "browse /\n"
+		}
+		text = "127.0.0.1:0/pre {\n" + body + "}\n"
+	}
 	inst, err := casket.Start(casket.CasketfileInput{Contents: []byte(text), Filepath: filepath.Join(fx.root, "Casketfile"), ServerTypeName: "http"})
 	if err != nil {
 		return nil, err
@@ -604,6 +612,37 @@ func c02Split(target string) (p, query string, ok bool) {
 	return sb.String(), query, true
 }
 
+// c02PrefixPath is the request path the handlers of the site 127.0.0.1:0/pre see: net/http's
+// parse of the request-target, then httpserver.trimPathPrefix (TrimPrefix on the escaped path,
+// re-parsed with url.Parse).
+func c02PrefixPath(target string) (string, bool) {
+	u, err := url.ParseRequestURI(target)
+	if err != nil {
+		return "", false
+	}
+	trimmed := strings.TrimPrefix(u.EscapedPath(), "/pre")
+	if !strings.HasPrefix(trimmed, "/") {
+		trimmed = "/" + trimmed
+	}
+	uri := trimmed
+	if u.RawQuery != "" || u.ForceQuery {
+		uri += "?" + u.RawQuery
+	}
+	t, err := url.Parse(uri)
+	if err != nil {
+		return u.Path, true
+	}
+	return t.Path, true
+}
+
+func c02EscapedPath(target string) string {
+	u, err := url.ParseRequestURI(target)
+	if err != nil {
+		return target
+	}
+	return u.EscapedPath()
+}
+
 func c02QueryGet(query, key string) string {
 	v, _ := url.ParseQuery(query) // what r.URL.Query() does
 	return v.Get(key)
@@ -629,6 +668,10 @@ func c02Run(in0 interface{}) Result {
 		return Result{Term: "CSkip", Obs: why, Class: class, Sig: class}
 	}
 	p, query, ok := c02Split(in.Target)
+	prefixSite := strings.HasPrefix(in.Site, "prefix")
+	if prefixSite {
+		p, ok = c02PrefixPath(in.Target)
+	}
 	o, err := c02Do(in)
 	if err != nil {
 		r := skip("start-error", err.Error())
@@ -649,6 +692,16 @@ func c02Run(in0 interface{}) Result {
 		site = "static_site"
 	}
 	ob := cApp("mkobs", cN(uint64(o.Status)), cStr(loc), cStr(o.CE), cN(uint64(o.Kind)), cNList(o.IDs), cStrList(o.Names))
+	if prefixSite {
+		// the path-prefix trimming of httpserver.Server (url.Parse of the escaped rest) is not modelled:
+		// these cases are judged against the executable property only
+		sig := c02Sig(in, p, query)
+		if strings.HasPrefix(p, "//") || strings.HasPrefix(strings.TrimPrefix(c02EscapedPath(in.Target), "/pre"), "//") {
+			sig = "prefix-site:rest-after-prefix-starts-with-two-slashes"
+		}
+		return Result{Term: cApp("CContract", site, req, ob), Obs: o, Sig: sig, Nontrivial: o.Status == 200 || o.Status/100 == 3,
+			Key: in.Site + "|" + in.Method + "|" + in.Target + "|" + in.AE, Class: fmt.Sprintf("%s:%s:%d:k%d", in.Site, in.Method, o.Status, o.Kind)}
+	}
 	return Result{Term: cApp("CReq", site, req, ob), Obs: o, Sig: c02Sig(in, p, query), Nontrivial: o.Status == 200 || o.Status/100 == 3,
 		Key: in.Site + "|" + in.Method + "|" + in.Target + "|" + in.AE + fmt.Sprint(in.JSON), Class: fmt.Sprintf("%s:%s:%d:k%d", in.Site, in.Method, o.Status, o.Kind)}
 }
@@ -959,6 +1012,17 @@ func c02Gen(r *Rand, tier string) []interface{} {
 		}
 	}
 
+	// sites with a path prefix (127.0.0.1:0/pre): the rest after the prefix is re-parsed by the server
+	for _, site := range []string{"prefix", "prefix-browse"} {
+		for _, t := range []string{"/a.txt", "/dir", "/dir/", "/a.txt/", "/Casketfile", "/./Casketfile", "/links/hard-casket", "/hsib.txt", "/idx/", "/../outside/o.txt", "/%2e%2e/root.txt", "",
+			"//evil.example/..", "//evil.example/../dir", "//evil.example/%2e%2e/a.txt/", "///evil.example/../dir", "//dir", "//dir/sub", "/%2fevil.example/..", "/\\evil.example/../dir", "/%5cevil.example/../dir"} {
+			add(site, "GET", "/pre"+t, r.Pick([]string{"", "gzip"}), false)
+		}
+		add(site, "GET", "/a.txt", "", false)
+		add(site, "GET", "/pre%2fdir", "", false)
+		add(site, "GET", "/pre/..%2fpre/dir", "", false)
+	}
+
 	// (3) random respellings of fixture paths and of paths aimed outside the root
 	n := 1100
 	if thorough {
@@ -989,6 +1053,10 @@ func c02Gen(r *Rand, tier string) []interface{} {
 		}
 		target := c02Render(r, segs, trailing, enc)
 		site := r.Pick(c02SiteKinds)
+		if r.Chance(8) {
+			site = r.Pick([]string{"prefix", "prefix-browse"})
+			target = "/pre" + target
+		}
 		if site != "static" || r.Chance(15) {
 			target += c02PickQuery(r, site)
 		}
